@@ -335,9 +335,9 @@ def apply_action(w, name, arg):
 def model_behaviours(chk, tier, known, rng):
     """Action sequences (root paths of the as-code model's state graph)."""
     if tier == "quick":
-        confs = [("g_t2_l1", consts(3, known, 2, 1, 1, 2, toseq=(1, 2)), 300),
-                 ("g_crash", consts(3, known, 1, 1, 1, 2, crash=1, toseq=(1,)), 150),
-                 ("g_l2", consts(3, known, 1, 2, 2, 2, toseq=(2,)), 150)]
+        confs = [("g_t2_l1", consts(3, known, 2, 1, 1, 2, toseq=(1, 2)), 240),
+                 ("g_crash", consts(3, known, 1, 1, 1, 2, crash=1, toseq=(1,)), 120),
+                 ("g_l2", consts(3, known, 1, 2, 2, 2, toseq=(2,)), 120)]
     else:
         confs = [("g_t2_l1", consts(3, known, 2, 1, 1, 2, toseq=(1, 2)), 100000),
                  ("g_crash", consts(3, known, 1, 1, 1, 2, crash=1, toseq=(1,)), 100000),
@@ -549,7 +549,7 @@ def sim_run(rng, n, *, kind):
         hb, (emin, emax) = 0.3, (1.0, 2.0)
         draw, loss, duration = None, 0.0, 18.0
     else:
-        hb = lr.choice((0.5, 0.25, 0.1))
+        hb = lr.choice((0.5, 0.25, 0.15))
         emin, emax = lr.choice(((1.5, 3.0), (1.0, 1.01), (0.6, 0.62), (0.4, 0.8)))
         mode = lr.choice(("bimodal", "wide", "burst"))
 
@@ -561,7 +561,7 @@ def sim_run(rng, n, *, kind):
                 return lr.uniform(0.0, 1.2)
             return lr.choice((0.0, 0.0, 0.001, 0.05, 0.7, 1.6))
         loss = lr.choice((0.0, 0.0, 0.05, 0.2))
-        duration = lr.choice((8.0, 12.0))
+        duration = lr.choice((7.0, 10.0))
         meta.update(mode=mode)
     meta.update(hb=hb, emin=emin, emax=emax, loss=loss, duration=duration)
     factory = None
@@ -790,8 +790,8 @@ def run(tier, seed, replay=None):
         return tid
 
     # code -> spec, real Simulation (long traces first: their validation overlaps everything else)
-    n_sim = 22 if quick else 150
-    n_ff = 6 if quick else 30
+    n_sim = 16 if quick else 150
+    n_ff = 5 if quick else 30
     prog_fail = {}
     sim_events = 0
     for k in range(n_sim):
@@ -813,7 +813,7 @@ def run(tier, seed, replay=None):
     flush()
 
     # code -> spec, direct drive
-    n_rand = 360 if quick else 3000
+    n_rand = 320 if quick else 3000
     styles = {}
     for k in range(n_rand):
         n = (3, 3, 5, 4)[k % 4]
@@ -920,7 +920,7 @@ def run_replay(chk, path, known):
     m = rp["meta"]
     origin = m["origin"]
     if origin.startswith("model"):
-        w = replay_behaviour(m["acts"])
+        w = replay_behaviour(m["acts"], m["n"])
         t = w.trace(1)
     elif origin.startswith("random"):
         w, _ = random_schedule(random.Random(m["sub"]), m["n"], m["steps"])
